@@ -14,6 +14,7 @@
 import Imeta.Model.Png
 import Imeta.Props.C10
 import Imeta.Props.C12
+import Imeta.Lemmas.ExifNested
 namespace Imeta.Png
 open Imeta
 
@@ -140,3 +141,30 @@ theorem C06_png_handoff (cs : List Chunk) (p crc post : Bytes) (hwf : ∀ c ∈ 
   rw [Nat.mod_eq_of_lt hoff]
 
 end Imeta.Png
+
+namespace Imeta.Exif
+open Imeta
+
+/-- **The same payload is read the same way through every entry variant.**  For one payload F (from its Tiff header on)
+with IFD0, Exif and GPS directories in a forward layout without overlap (`World`, `DirOK`, see C03): DecodeTiff (TIFF
+files, PNG eXIf, HEIF), DecodeJPEGIfd (JPEG APP1, with the segment's Exif length) and DecodeIfd (CR3 CMT boxes, stream
+starting at the first directory) each make only successful reads and each read returns exactly F[t.off, t.off+t.size) —
+so every field parser is handed the same bytes whichever container carried the payload. -/
+theorem C06_same_payload_same_reads (tb : Tables) (F : Bytes) (buffered : Bool) (h : Hdr) (cnt : Nat) (W : Tag → Prop)
+    (hsmall : F.length < 2 ^ 32) (hfi : h.firstIfd ≤ F.length)
+    (w : World F h.exifLength (if buffered then bufioSize else scratchSize) W)
+    (w4 : World F (4 * 1024 * 1024) (if buffered then bufioSize else scratchSize) W)
+    (hroot : DirOK F { off := 0, base := 0, order := h.order, typ := h.firstIfdType, idx := 0 } h.firstIfd cnt h.exifLength
+      (if buffered then bufioSize else scratchSize) (extent F))
+    (hroot4 : DirOK F { off := 0, base := 0, order := h.order, typ := h.firstIfdType, idx := 0 } h.firstIfd cnt (4 * 1024 * 1024)
+      (if buffered then bufioSize else scratchSize) (extent F))
+    (hrootW : ∀ x, IsEntry F { off := 0, base := 0, order := h.order, typ := h.firstIfdType, idx := 0 } h.firstIfd cnt x → W x) :
+    (∀ r' e, decodeTiff tb F buffered h = .ok (r', e) → Coh F r' ∧ Exact F r') ∧
+    (∀ r' e, decodeJPEGIfd tb F buffered h = .ok (r', e) → Coh F r' ∧ Exact F r') ∧
+    (∀ r' e, decodeIfd tb (F.drop h.firstIfd) buffered h = .ok (r', e) → Coh F r' ∧ Exact F r') :=
+  ⟨fun r' e hr => decodeTiff_nested tb F buffered h cnt r' e W hsmall w4 hroot4 hrootW hr,
+   fun r' e hr => decodeJPEGIfd_nested tb F buffered h cnt r' e W hsmall w hroot hrootW hr,
+   fun r' e hr => decodeIfd_nested tb F (F.drop h.firstIfd) buffered h cnt r' e W hsmall rfl hfi w hroot hrootW hr⟩
+
+end Imeta.Exif
+
